@@ -95,7 +95,7 @@ CLAIMED["C20"] = (
     "one of the stored blocks. "
     "This is where an element type can be lost by construction (zero blocks joining data, slice assignment into a default-dtype "
     "buffer). R20.4: no block-wise value operation is gated on the array-level dtype witness (which is read off ONE block; the blocks of "
-    "an array can differ in element type after mixed arithmetic).",
+    "an array can differ in element type after mixed arithmetic). "
     "R20.5 (evaluation): the C01 battery (~900 operations quick) is evaluated on arrays whose charge labels are marked as numpy integers "
     "(arithmetic on a marked integer stays marked; int(), comparisons, truth tests and lookups give plain values); no block token ever meets a "
     "marked integer in * / + - ** - a numpy integer scalar is strongly typed and would widen float32 / complex64 blocks where the Python literal keeps them.",
